@@ -7,6 +7,7 @@ import (
 	"go/types"
 	"math/big"
 	"strings"
+	"sync"
 
 	"golang.org/x/tools/go/ssa"
 
@@ -32,6 +33,8 @@ type Interp struct {
 	Tmpl *Interp // template interpreter holding initialised globals (concrete), or nil
 	memo map[any]any
 	MonitorOn bool
+	consts map[*ssa.Const]Value
+	memoResults map[string]Value
 	MonitorMode int // 1: value-changing writes (C05); 2: any write (C06)
 	ids map[any]int64
 	bigs     map[*Obj]*smt.Term
@@ -63,7 +66,8 @@ type deferred struct {
 
 type frame struct {
 	fn        *ssa.Function
-	locals    map[ssa.Value]Value
+	info      *fnInfo
+	regs      []Value
 	block     *ssa.BasicBlock
 	prev      *ssa.BasicBlock
 	defers    []deferred
@@ -71,6 +75,55 @@ type frame struct {
 	panicking *TargetPanic
 	recovered bool
 }
+
+type fnInfo struct {
+	index map[ssa.Value]int
+	n     int
+}
+
+var fnInfos sync.Map // *ssa.Function -> *fnInfo
+
+func infoOf(fn *ssa.Function) *fnInfo {
+	if v, ok := fnInfos.Load(fn); ok {
+		return v.(*fnInfo)
+	}
+	fi := &fnInfo{index: map[ssa.Value]int{}}
+	for _, p := range fn.Params {
+		fi.index[p] = fi.n
+		fi.n++
+	}
+	for _, p := range fn.FreeVars {
+		fi.index[p] = fi.n
+		fi.n++
+	}
+	for _, b := range fn.Blocks {
+		for _, i := range b.Instrs {
+			if v, ok := i.(ssa.Value); ok {
+				fi.index[v] = fi.n
+				fi.n++
+			}
+		}
+	}
+	if fn.Recover != nil {
+		for _, i := range fn.Recover.Instrs {
+			if v, ok := i.(ssa.Value); ok {
+				if _, have := fi.index[v]; !have {
+					fi.index[v] = fi.n
+					fi.n++
+				}
+			}
+		}
+	}
+	v, _ := fnInfos.LoadOrStore(fn, fi)
+	return v.(*fnInfo)
+}
+
+func newFrame(fn *ssa.Function) *frame {
+	fi := infoOf(fn)
+	return &frame{fn: fn, info: fi, regs: make([]Value, fi.n)}
+}
+
+func (fr *frame) set(v ssa.Value, x Value) { fr.regs[fr.info.index[v]] = x }
 
 // ---- types ----
 
@@ -250,6 +303,25 @@ func (in *Interp) concStr(v Value) string {
 // ---- constants ----
 
 func (in *Interp) constVal(c *ssa.Const) Value {
+	root := in
+	if in.Tmpl != nil {
+		root = in.Tmpl
+	}
+	if root.consts == nil {
+		root.consts = map[*ssa.Const]Value{}
+	}
+	if v, ok := root.consts[c]; ok {
+		return v
+	}
+	v := in.constVal0(c)
+	switch v.(type) {
+	case *smt.Term, Str:
+		root.consts[c] = v
+	}
+	return v
+}
+
+func (in *Interp) constVal0(c *ssa.Const) Value {
 	t := c.Type()
 	if c.Value == nil {
 		return in.zero(t)
@@ -326,7 +398,64 @@ func (in *Interp) ensureInit(p *ssa.Package) {
 
 // ---- calls ----
 
+// callMemo: harness functions named vmemo_* are pure set-up steps on concrete
+// arguments (Parse/Compile of a fixed program); they run once per worker in the
+// template interpreter and their result graph is deep-copied into each path.
+func (in *Interp) callMemo(fn *ssa.Function, args []Value) (Value, bool) {
+	if in.Tmpl == nil {
+		return nil, false
+	}
+	key := fn.Name()
+	for _, a := range args {
+		switch a := a.(type) {
+		case Str:
+			if a.B != nil {
+				return nil, false
+			}
+			key += "|s:" + a.S
+		case *smt.Term:
+			if !a.IsConst() {
+				return nil, false
+			}
+			key += "|t:" + a.Val.String()
+		default:
+			return nil, false
+		}
+	}
+	t := in.Tmpl
+	if t.memoResults == nil {
+		t.memoResults = map[string]Value{}
+	}
+	res, ok := t.memoResults[key]
+	if !ok {
+		t.ensureInit(fn.Pkg)
+		t.Fuel = in.Fuel
+		t.Steps = 0
+		res = t.callFunctionBody(fn, args)
+		t.memoResults[key] = res
+		in.Steps += t.Steps
+		for f, n := range t.Funcs {
+			in.Funcs[f] += n
+			delete(t.Funcs, f)
+		}
+	}
+	in.ensureInit(fn.Pkg)
+	if in.memo == nil {
+		in.memo = map[any]any{}
+	}
+	return in.deepCopy(res), true
+}
+
 func (in *Interp) callFunction(fn *ssa.Function, args []Value) Value {
+	if len(fn.Name()) > 6 && fn.Name()[:6] == "vmemo_" {
+		if r, ok := in.callMemo(fn, args); ok {
+			return r
+		}
+	}
+	return in.callFunctionBody(fn, args)
+}
+
+func (in *Interp) callFunctionBody(fn *ssa.Function, args []Value) Value {
 	name := fn.String()
 	if st, ok := in.Stubs[name]; ok {
 		return st(in, args)
@@ -348,9 +477,9 @@ func (in *Interp) callFunction(fn *ssa.Function, args []Value) Value {
 		abortf("recursion depth limit")
 	}
 	defer func() { in.depth-- }()
-	fr := &frame{fn: fn, locals: make(map[ssa.Value]Value, 32)}
-	for i, p := range fn.Params {
-		fr.locals[p] = args[i]
+	fr := newFrame(fn)
+	for i := range fn.Params {
+		fr.regs[i] = args[i]
 	}
 	return in.run(fr)
 }
@@ -378,12 +507,13 @@ func (in *Interp) callValue(fv Value, args []Value) Value {
 		abortf("recursion depth limit")
 	}
 	defer func() { in.depth-- }()
-	fr := &frame{fn: cl.Fn, locals: make(map[ssa.Value]Value, 32)}
-	for i, p := range cl.Fn.Params {
-		fr.locals[p] = args[i]
+	fr := newFrame(cl.Fn)
+	for i := range cl.Fn.Params {
+		fr.regs[i] = args[i]
 	}
-	for i, fv := range cl.Fn.FreeVars {
-		fr.locals[fv] = cl.Bindings[i]
+	np := len(cl.Fn.Params)
+	for i := range cl.Fn.FreeVars {
+		fr.regs[np+i] = cl.Bindings[i]
 	}
 	return in.run(fr)
 }
@@ -399,8 +529,8 @@ func (in *Interp) get(fr *frame, v ssa.Value) Value {
 	case *ssa.Builtin:
 		return &Closure{Name: "builtin:" + v.Name()}
 	}
-	if r, ok := fr.locals[v]; ok {
-		return r
+	if i, ok := fr.info.index[v]; ok {
+		return fr.regs[i]
 	}
 	abortf("get: no value for %s (%T) in %s", v.Name(), v, fr.fn)
 	return nil
@@ -444,7 +574,10 @@ func (in *Interp) runDefers(fr *frame) {
 }
 
 func (in *Interp) runBlocks(fr *frame) Value {
+	var phiVals []Value
+	phiN := 0
 	for {
+		phiVals = phiVals[:0]
 		b := fr.block
 	instrs:
 		for _, instr := range b.Instrs {
@@ -489,11 +622,26 @@ func (in *Interp) runBlocks(fr *frame) Value {
 			case *ssa.RunDefers:
 				in.runDefers(fr)
 			case *ssa.Phi:
-				for i, p := range b.Preds {
-					if p == fr.prev {
-						fr.locals[instr] = in.get(fr, instr.Edges[i])
-						break
+				// phis of a block are evaluated in parallel: read all, then write
+				if len(phiVals) == 0 {
+					for _, pi := range b.Instrs {
+						ph, ok := pi.(*ssa.Phi)
+						if !ok {
+							break
+						}
+						for i, p := range b.Preds {
+							if p == fr.prev {
+								phiVals = append(phiVals, in.get(fr, ph.Edges[i]))
+								break
+							}
+						}
 					}
+					phiN = 0
+				}
+				fr.set(instr, phiVals[phiN])
+				phiN++
+				if phiN == len(phiVals) {
+					phiVals = phiVals[:0]
 				}
 			default:
 				in.safeVisit(fr, instr)
@@ -527,13 +675,13 @@ func (in *Interp) visit(fr *frame, instr ssa.Instruction) {
 	switch instr := instr.(type) {
 	case *ssa.Alloc:
 		o := &Obj{Cells: []Value{in.zero(instr.Type().(*types.Pointer).Elem())}, T: instr.Type()}
-		fr.locals[instr] = Ptr{O: o, I: 0}
+		fr.set(instr, Ptr{O: o, I: 0})
 	case *ssa.Store:
 		in.store(in.get(fr, instr.Addr).(Ptr), in.get(fr, instr.Val))
 	case *ssa.UnOp:
-		fr.locals[instr] = in.unop(fr, instr)
+		fr.set(instr, in.unop(fr, instr))
 	case *ssa.BinOp:
-		fr.locals[instr] = in.binop(instr.Op, in.get(fr, instr.X), in.get(fr, instr.Y), instr.X.Type())
+		fr.set(instr, in.binop(instr.Op, in.get(fr, instr.X), in.get(fr, instr.Y), instr.X.Type()))
 	case *ssa.FieldAddr:
 		p := in.get(fr, instr.X).(Ptr)
 		if p.O == nil {
@@ -543,25 +691,25 @@ func (in *Interp) visit(fr *frame, instr ssa.Instruction) {
 			p = Ptr{O: p.O, I: p.I + in.Ctx.ConcretizeIndex(p.Sym, p.N)}
 		}
 		s := p.O.Cells[p.I].(*Obj)
-		fr.locals[instr] = Ptr{O: s, I: instr.Field}
+		fr.set(instr, Ptr{O: s, I: instr.Field})
 	case *ssa.Field:
 		s := in.get(fr, instr.X).(*Obj)
-		fr.locals[instr] = copyVal(s.Cells[instr.Field])
+		fr.set(instr, copyVal(s.Cells[instr.Field]))
 	case *ssa.IndexAddr:
-		fr.locals[instr] = in.indexAddr(in.get(fr, instr.X), in.get(fr, instr.Index).(*smt.Term), instr.Index.Type())
+		fr.set(instr, in.indexAddr(in.get(fr, instr.X), in.get(fr, instr.Index).(*smt.Term), instr.Index.Type()))
 	case *ssa.Index:
 		x := in.get(fr, instr.X)
 		idx := in.get(fr, instr.Index).(*smt.Term)
 		switch x := x.(type) {
 		case *Obj:
-			fr.locals[instr] = in.selectCells(x.Cells, in.checkIndex(idx, instr.Index.Type(), len(x.Cells)))
+			fr.set(instr, in.selectCells(x.Cells, in.checkIndex(idx, instr.Index.Type(), len(x.Cells))))
 		case Str:
-			fr.locals[instr] = in.strIndex(x, idx, instr.Index.Type())
+			fr.set(instr, in.strIndex(x, idx, instr.Index.Type()))
 		default:
 			abortf("Index on %T", x)
 		}
 	case *ssa.Slice:
-		fr.locals[instr] = in.slice(fr, instr)
+		fr.set(instr, in.slice(fr, instr))
 	case *ssa.MakeSlice:
 		n := in.concSmall(in.get(fr, instr.Len).(*smt.Term), "make len")
 		c := in.concSmall(in.get(fr, instr.Cap).(*smt.Term), "make cap")
@@ -577,10 +725,10 @@ func (in *Interp) visit(fr *frame, instr ssa.Instruction) {
 		for i := range arr.Cells {
 			arr.Cells[i] = copyVal(z)
 		}
-		fr.locals[instr] = SliceV{arr, 0, n, c}
+		fr.set(instr, SliceV{arr, 0, n, c})
 	case *ssa.MakeMap:
 		mt := instr.Type().Underlying().(*types.Map)
-		fr.locals[instr] = &MapV{KT: mt.Key(), VT: mt.Elem()}
+		fr.set(instr, &MapV{KT: mt.Key(), VT: mt.Elem()})
 	case *ssa.MapUpdate:
 		m := in.get(fr, instr.Map).(*MapV)
 		if m == nil {
@@ -590,7 +738,7 @@ func (in *Interp) visit(fr *frame, instr ssa.Instruction) {
 	case *ssa.Lookup:
 		x := in.get(fr, instr.X)
 		if s, ok := x.(Str); ok {
-			fr.locals[instr] = in.strIndex(s, in.get(fr, instr.Index).(*smt.Term), instr.Index.Type())
+			fr.set(instr, in.strIndex(s, in.get(fr, instr.Index).(*smt.Term), instr.Index.Type()))
 			return
 		}
 		m := x.(*MapV)
@@ -599,39 +747,39 @@ func (in *Interp) visit(fr *frame, instr ssa.Instruction) {
 			v = in.zero(instr.X.Type().Underlying().(*types.Map).Elem())
 		}
 		if instr.CommaOk {
-			fr.locals[instr] = Tuple{copyVal(v), in.St.BoolConst(ok)}
+			fr.set(instr, Tuple{copyVal(v), in.St.BoolConst(ok)})
 		} else {
-			fr.locals[instr] = copyVal(v)
+			fr.set(instr, copyVal(v))
 		}
 	case *ssa.MakeInterface:
-		fr.locals[instr] = Iface{T: instr.X.Type(), V: copyVal(in.get(fr, instr.X))}
+		fr.set(instr, Iface{T: instr.X.Type(), V: copyVal(in.get(fr, instr.X))})
 	case *ssa.MakeClosure:
 		b := make([]Value, len(instr.Bindings))
 		for i, x := range instr.Bindings {
 			b[i] = in.get(fr, x)
 		}
-		fr.locals[instr] = &Closure{Fn: instr.Fn.(*ssa.Function), Bindings: b}
+		fr.set(instr, &Closure{Fn: instr.Fn.(*ssa.Function), Bindings: b})
 	case *ssa.TypeAssert:
-		fr.locals[instr] = in.typeAssert(instr, in.get(fr, instr.X).(Iface))
+		fr.set(instr, in.typeAssert(instr, in.get(fr, instr.X).(Iface)))
 	case *ssa.ChangeInterface:
-		fr.locals[instr] = in.get(fr, instr.X)
+		fr.set(instr, in.get(fr, instr.X))
 	case *ssa.ChangeType:
-		fr.locals[instr] = in.get(fr, instr.X)
+		fr.set(instr, in.get(fr, instr.X))
 	case *ssa.Convert:
-		fr.locals[instr] = in.convert(in.get(fr, instr.X), instr.X.Type(), instr.Type())
+		fr.set(instr, in.convert(in.get(fr, instr.X), instr.X.Type(), instr.Type()))
 	case *ssa.Extract:
-		fr.locals[instr] = in.get(fr, instr.Tuple).(Tuple)[instr.Index]
+		fr.set(instr, in.get(fr, instr.Tuple).(Tuple)[instr.Index])
 	case *ssa.Call:
-		fr.locals[instr] = in.call(fr, instr.Common())
+		fr.set(instr, in.call(fr, instr.Common()))
 	case *ssa.Defer:
 		fn, args := in.prepareCall(fr, instr.Common())
 		fr.defers = append(fr.defers, deferred{fn, args, instr.Common()})
 	case *ssa.Range:
-		fr.locals[instr] = in.rangeIter(in.get(fr, instr.X))
+		fr.set(instr, in.rangeIter(in.get(fr, instr.X)))
 	case *ssa.Next:
-		fr.locals[instr] = in.next(in.get(fr, instr.Iter).(*iterV), instr)
+		fr.set(instr, in.next(in.get(fr, instr.Iter).(*iterV), instr))
 	case *ssa.MakeChan:
-		fr.locals[instr] = &ChanV{}
+		fr.set(instr, &ChanV{})
 	case *ssa.Select:
 		if instr.Blocking {
 			abortf("blocking select not supported")
@@ -650,7 +798,7 @@ func (in *Interp) visit(fr *frame, instr ssa.Instruction) {
 				tup = append(tup, in.zero(stt.Chan.Type().Underlying().(*types.Chan).Elem()))
 			}
 		}
-		fr.locals[instr] = tup
+		fr.set(instr, tup)
 	case *ssa.DebugRef:
 	default:
 		abortf("unsupported instruction %T: %v", instr, instr)
@@ -1072,6 +1220,14 @@ func (in *Interp) deepCopy(v Value) Value {
 		in.memo[v] = n
 		for i, c := range v.Cells {
 			n.Cells[i] = in.deepCopy(c)
+		}
+		if in.Tmpl != nil {
+			if b, ok := in.Tmpl.bigs[v]; ok {
+				in.bigs[n] = b
+			}
+			if b, ok := in.Tmpl.builders[v]; ok {
+				in.builders[n] = b
+			}
 		}
 		return n
 	case Ptr:
